@@ -11,26 +11,47 @@ import time
 CVC5 = "/usr/bin/cvc5"
 
 
+Z3 = "z3-new"          # CLI of the z3-solver wheel (same 5.1.0 as the python API that builds the queries)
+
+
 def _z3_worker(job):
+    """One query in its own z3 process: the soft time-out (-t) is not honoured inside some quantifier
+    instantiation loops, so the process is killed at the hard limit; a killed query is `unknown`."""
     key, smt2, timeout_ms = job
-    import z3
     t0 = time.time()
+    with tempfile.NamedTemporaryFile("w", suffix=".smt2", delete=False) as fh:
+        fh.write(smt2)
+        path = fh.name
+    secs = max(1, (timeout_ms + 999) // 1000)
     try:
-        s = z3.Solver()
-        s.set("timeout", timeout_ms)
-        s.from_string(smt2)
-        r = s.check()
-        res = str(r)
+        p = subprocess.run([Z3, "-smt2", f"-t:{timeout_ms}", f"-T:{secs + 1}", path],
+                           capture_output=True, text=True, timeout=secs + 4)
+        lines = (p.stdout or "").strip().splitlines()
+        res = lines[0].strip() if lines else "unknown"
         extra = ""
-        if res == "unknown":
-            extra = s.reason_unknown()
+        if res not in ("sat", "unsat", "unknown"):
+            if "timeout" in (p.stdout or "").lower():
+                res, extra = "unknown", "timeout"
+            else:
+                res, extra = "error", ((p.stdout or "") + (p.stderr or ""))[:500]
+        elif res == "unknown":
+            extra = "unknown"
         elif res == "sat":
+            # counter-model for the replay file
+            with open(path, "a") as fh:
+                fh.write("\n(get-model)\n")
             try:
-                extra = str(s.model())[:4000]
-            except Exception as e:  # pragma: no cover
-                extra = f"<model unavailable: {e}>"
+                p2 = subprocess.run([Z3, "-smt2", f"-t:{timeout_ms}", f"-T:{secs + 1}", path],
+                                    capture_output=True, text=True, timeout=secs + 4)
+                extra = (p2.stdout or "")[:4000]
+            except Exception:
+                extra = "<model unavailable>"
+    except subprocess.TimeoutExpired:
+        res, extra = "unknown", "hard timeout (process killed)"
     except Exception as e:  # z3 internal error is not a verdict
         res, extra = "error", repr(e)
+    finally:
+        os.unlink(path)
     return key, res, round(time.time() - t0, 3), extra
 
 
